@@ -6,6 +6,7 @@ import (
 	"errors"
 	"fmt"
 	"io"
+	"os"
 	"regexp"
 	"strconv"
 	"strings"
@@ -40,18 +41,30 @@ type exporter interface {
 }
 
 type failingReader struct {
-	data []byte
-	pos  int
+	data     []byte
+	pos      int
+	err      error
+	withData bool // return the error together with the last bytes instead of on the next call
 }
 
 var errInjected = errors.New("injected read failure")
 
+// failErrors: what real readers report when they fail (a truncated body, a closed pipe, a
+// deadline …); every one of them is a failing reader.
+var failErrors = map[string]error{
+	"injected": errInjected, "unexpected-eof": io.ErrUnexpectedEOF, "closed-pipe": io.ErrClosedPipe, "no-progress": io.ErrNoProgress,
+	"short-buffer": io.ErrShortBuffer, "deadline": os.ErrDeadlineExceeded, "closed": os.ErrClosed, "wrapped-eof": fmt.Errorf("read template: %w", io.EOF),
+}
+
 func (f *failingReader) Read(p []byte) (int, error) {
 	if f.pos >= len(f.data) {
-		return 0, errInjected
+		return 0, f.err
 	}
 	n := copy(p, f.data[f.pos:])
 	f.pos += n
+	if f.withData && f.pos >= len(f.data) {
+		return n, f.err
+	}
 	return n, nil
 }
 
@@ -213,15 +226,25 @@ func makeReader(kind string, text []byte) (io.Reader, bool /*fails*/, bool /*ok*
 		return iotest.HalfReader(bytes.NewReader(text)), false, true
 	case kind == "dataerr":
 		return iotest.DataErrReader(bytes.NewReader(text)), false, true
-	case strings.HasPrefix(kind, "fail:"):
-		k, err := strconv.Atoi(kind[5:])
+	case strings.HasPrefix(kind, "fail:"): // fail:<k>[:<error name>[:with-data]]
+		parts := strings.Split(kind[5:], ":")
+		k, err := strconv.Atoi(parts[0])
 		if err != nil || k < 0 {
 			return nil, false, false
 		}
 		if k > len(text) {
 			k = len(text)
 		}
-		return &failingReader{data: text[:k]}, true, true
+		fr := &failingReader{data: text[:k], err: errInjected}
+		if len(parts) > 1 {
+			e, ok := failErrors[parts[1]]
+			if !ok {
+				return nil, false, false
+			}
+			fr.err = e
+		}
+		fr.withData = len(parts) > 2 && parts[2] == "with-data" && k > 0
+		return fr, true, true
 	case kind == "nil":
 		return nil, true, true
 	case strings.HasPrefix(kind, "consumed-"):
@@ -378,12 +401,12 @@ func tplClass(c tplCase) (string, bool) {
 	return "tpl:valid", hasAction
 }
 
-var readerKinds = []string{"string", "string", "string", "reader", "reader", "onebyte", "half", "dataerr", "fail", "nil", "consumed-strings", "consumed-bytes", "consumed-section", "consumed-buffer", "consumed-bufio"}
+var readerKinds = []string{"string", "string", "string", "reader", "reader", "onebyte", "half", "dataerr", "fail", "fail", "nil", "consumed-strings", "consumed-bytes", "consumed-section", "consumed-buffer", "consumed-bufio"}
 
 func TestC19(t *testing.T) {
 	c := begin(t, "C19")
 	defer c.end()
-	c.rec.F.Rule = "rapid: (template x report level x language x reader kind x vector). Templates come from a grammar: literal text (ASCII, unicode, lone braces, newlines), field references of all three report levels and through the embedded reports, pipelines (printf, len, html, js, urlquery, print, index, slice, eq/ne/lt.., and/or/not), if/else/with/range, variables, comments, trim markers, define/template/block without recursion, and invalid forms (unknown field or function, field of a higher level, unbalanced or stray actions, bad pipelines, wrong arity). Readers: ExportWithString, bytes.Reader, one-byte, half, data-with-EOF, failing after k bytes, nil interface, and partially consumed strings.Reader / bytes.Reader / SectionReader / bytes.Buffer / bufio.Reader (content = what remains); nil reports of each level. Oracle A: parse and execute the same text with text/template on the same report value (failure => error matching invalid-template and nil reader; success => identical bytes); oracle B: reflection model for literal + plain-field templates. Thorough adds native fuzzing of the template bytes. Non-trivial = template containing at least one action; distinct by hash of the case."
+	c.rec.F.Rule = "rapid: (template x report level x language x reader kind x vector). Templates come from a grammar: literal text (ASCII, unicode, lone braces, newlines), field references of all three report levels and through the embedded reports, pipelines (printf, len, html, js, urlquery, print, index, slice, eq/ne/lt.., and/or/not), if/else/with/range, variables, comments, trim markers, define/template/block without recursion, and invalid forms (unknown field or function, field of a higher level, unbalanced or stray actions, bad pipelines, wrong arity). Readers: ExportWithString, bytes.Reader, one-byte, half, data-with-EOF, failing after k bytes with one of eight error values real readers report (io.ErrUnexpectedEOF, closed pipe, deadline, a wrapped io.EOF …; returned on the next call or together with the last bytes), nil interface, and partially consumed strings.Reader / bytes.Reader / SectionReader / bytes.Buffer / bufio.Reader (content = what remains); nil reports of each level. Oracle A: parse and execute the same text with text/template on the same report value (failure => error matching invalid-template and nil reader; success => identical bytes); oracle B: reflection model for literal + plain-field templates. Thorough adds native fuzzing of the template bytes. Non-trivial = template containing at least one action; distinct by hash of the case."
 	c.rec.F.Assumptions = []string{"text/template of the toolchain is the reference for rendering (the property says so)", "the oracle uses the same root template name as the library so that self-referential definitions behave identically; templates with call cycles or > 1 MiB output are skipped and counted", "typed-nil readers are outside the property (nil reader = nil interface value)"}
 	tags := []string{"en", "ja", "fr", "und"}
 	c.rapidStage("rapid", pick(20000, 1000000), func(rt *rapid.T) {
@@ -392,7 +415,11 @@ func TestC19(t *testing.T) {
 		text := gen.Template(rt, lv)
 		kind := rapid.SampledFrom(readerKinds).Draw(rt, "reader")
 		if kind == "fail" {
-			kind = fmt.Sprintf("fail:%d", rapid.IntRange(0, len(text)).Draw(rt, "failat"))
+			names := []string{"injected", "unexpected-eof", "closed-pipe", "no-progress", "short-buffer", "deadline", "closed", "wrapped-eof"}
+			kind = fmt.Sprintf("fail:%d:%s", rapid.IntRange(0, len(text)).Draw(rt, "failat"), rapid.SampledFrom(names).Draw(rt, "failerr"))
+			if rapid.Bool().Draw(rt, "withdata") {
+				kind += ":with-data"
+			}
 		}
 		cs := tplCase{Level: int(lv), Lang: rapid.SampledFrom(tags).Draw(rt, "lang"), Vector: v.String(), Template: []byte(text), Text: strconv.Quote(text), Reader: kind,
 			NilReport: rapid.IntRange(0, 19).Draw(rt, "nilreport") == 0}
